@@ -129,6 +129,11 @@ fn create_canon_stream_producer<'closure, 'name: 'closure>(
         ));
 
         #[cfg(aquavm_verif)]
+        crate::verif_hooks::emit(crate::verif_hooks::Event::StreamUse {
+            name: stream_map_name.to_string(),
+            air_pos: position.into(),
+        });
+        #[cfg(aquavm_verif)]
         crate::verif_hooks::emit(crate::verif_hooks::Event::CanonSnapshot {
             name: stream_map_name.to_string(),
             values: vec![value.get_result().to_string()],
